@@ -239,6 +239,23 @@ impl<K: Hash + Eq, KH: KeyHasher<K>, S: BuildHasher> SampledLFU<K, KH, S> {
     }
 }
 
+// ---------------------------------------------------------------------------
+// Verification hooks (cargo feature `verif-hooks`, off by default).
+// ---------------------------------------------------------------------------
+#[cfg(feature = "verif-hooks")]
+impl<K, KH, S> SampledLFU<K, KH, S> {
+    /// Snapshot of the private ledger state.
+    #[doc(hidden)]
+    pub fn verif_state(&self) -> crate::verif::SampledLFUState {
+        crate::verif::SampledLFUState {
+            samples: self.samples,
+            used: self.used,
+            max_cost: self.max_cost.load(Ordering::SeqCst),
+            key_costs: self.key_costs.iter().map(|(k, v)| (*k, *v)).collect(),
+        }
+    }
+}
+
 #[cfg(test)]
 mod test {
     use crate::lfu::sampled::SampledLFU;
